@@ -1,5 +1,356 @@
 package c10
 
-import "github.com/quay/claircore/verifharness/internal/hx"
+import (
+	"context"
+	"fmt"
+	"net/http"
+	"os"
+	"runtime"
+	"sort"
+	"strconv"
+	"strings"
+	"sync"
+	"sync/atomic"
+	"time"
 
-func freeRuns(r *hx.Run, cfg hx.Config, rnd *hx.Rand) {}
+	"github.com/quay/claircore"
+	"github.com/quay/claircore/internal/verifhook"
+	"github.com/quay/claircore/libindex"
+	"github.com/quay/claircore/verifharness/internal/hx"
+)
+
+// stampRT is the arena's HTTP transport in free runs: it stamps every request
+// the fetcher issues with a logical clock, on the flight's own goroutine,
+// between the Load miss and the end of the flight.
+type stampRT struct {
+	inner http.RoundTripper
+	clock *atomic.Int64
+	mu    sync.Mutex
+	reqs  map[int][]int64 // layer -> stamps of issued requests
+}
+
+func (t *stampRT) RoundTrip(req *http.Request) (*http.Response, error) {
+	if req.Context().Err() == nil {
+		if k, err := strconv.Atoi(strings.TrimPrefix(req.URL.Path, "/l/")); err == nil {
+			s := t.clock.Add(1)
+			t.mu.Lock()
+			t.reqs[k] = append(t.reqs[k], s)
+			t.mu.Unlock()
+		}
+	}
+	return t.inner.RoundTrip(req)
+}
+
+type freeUser struct {
+	id        int
+	layers    []int
+	cancelAt  int // number of yields after which the user's context is cancelled (<0: never)
+	err       error
+	a, b      int64 // logical time of "Realize returned" and "about to Close"
+	cancelled atomic.Bool
+}
+
+// yielder perturbs the schedule at the hook points.
+type yielder struct {
+	seed uint64
+	n    atomic.Uint64
+}
+
+func (y *yielder) maybe() {
+	x := y.n.Add(1) * 0x9E3779B97F4A7C15
+	x ^= y.seed
+	x ^= x >> 29
+	x *= 0xBF58476D1CE4E5B9
+	x ^= x >> 32
+	switch x % 8 {
+	case 0, 1, 2:
+		runtime.Gosched()
+	case 3:
+		for i := 0; i < int(x>>8%4)+1; i++ {
+			runtime.Gosched()
+		}
+	case 4:
+		if (x>>16)%6 == 0 {
+			time.Sleep(time.Duration((x>>24)%150) * time.Microsecond)
+		}
+	}
+}
+
+func freeRun(r *hx.Run, rnd *hx.Rand, idx int, maxUsers int) {
+	// every other run is "clean": no failing layer, no cancellation, so every user must succeed
+	clean := idx%2 == 0
+	nl := 3 + rnd.Intn(8)
+	var layers []*layer
+	bad := map[int]string{} // layers that make a Realize fail
+	for i := 0; i < nl; i++ {
+		valid := true
+		switch {
+		case !clean && i >= 2 && rnd.Chance(1, 12):
+			valid = false
+			bad[i] = "not-a-tar"
+		}
+		layers = append(layers, mkLayer(i, valid, 100+rnd.Intn(60000)))
+	}
+	srv := newServer(layers)
+	flaky := map[int]*atomic.Int32{}
+	for i := 2; i < nl; i++ {
+		if _, isBad := bad[i]; !isBad && !clean && rnd.Chance(1, 10) {
+			if rnd.Chance(1, 2) {
+				srv.mode[i].Store(srv500)
+				bad[i] = "always-500"
+			} else {
+				flaky[i] = new(atomic.Int32)
+				bad[i] = "first-request-fails"
+			}
+		}
+	}
+	y := &yielder{seed: rnd.U64()}
+	srv.delay = func(k int) {
+		if c := flaky[k]; c != nil {
+			if c.Add(1) == 1 {
+				srv.mode[k].Store(srvWrongBytes)
+			} else {
+				srv.mode[k].Store(srvOK)
+			}
+		}
+		y.maybe()
+		y.maybe()
+	}
+	var clock atomic.Int64
+	rt := &stampRT{inner: srv.ts.Client().Transport, clock: &clock, reqs: map[int][]int64{}}
+	client := &http.Client{Transport: rt}
+	root, err := os.MkdirTemp("", "c10-free-")
+	if err != nil {
+		r.Fail("", "cannot-create-arena "+err.Error())
+		return
+	}
+	defer os.RemoveAll(root)
+	arena := libindex.NewRemoteFetchArena(client, root)
+	var flights atomic.Int64 // flights between their first and their last hook point
+	verifhook.Install(func(site, key string) {
+		if strings.HasPrefix(site, "c10.") {
+			switch site {
+			case "c10.flight.begin":
+				flights.Add(1)
+			case "c10.flight.end":
+				// deferred first, so it runs last: the temp file has been stored or closed
+				flights.Add(-1)
+				return
+			}
+			y.maybe()
+		}
+	})
+	defer verifhook.Install(nil)
+
+	nu := 1 + rnd.Intn(maxUsers)
+	if rnd.Chance(1, 8) {
+		nu = maxUsers
+	}
+	users := make([]*freeUser, nu)
+	anyCancel := false
+	for i := range users {
+		u := &freeUser{id: i, cancelAt: -1}
+		want := 1 + rnd.Intn(min(6, nl))
+		perm := make([]int, nl)
+		for j := range perm {
+			perm[j] = j
+		}
+		for j := nl - 1; j > 0; j-- {
+			m := rnd.Intn(j + 1)
+			perm[j], perm[m] = perm[m], perm[j]
+		}
+		// most users share the low layers (a common base image), in shuffled order
+		for _, k := range perm {
+			if len(u.layers) < want && (k < 3 || rnd.Chance(1, 2)) {
+				u.layers = append(u.layers, k)
+			}
+		}
+		if len(u.layers) == 0 {
+			u.layers = []int{0}
+		}
+		if !clean && rnd.Chance(1, 7) {
+			u.cancelAt = rnd.Intn(40)
+			anyCancel = true
+		}
+		users[i] = u
+	}
+	label := fmt.Sprintf("free-run#%d users=%d layers=%d gomaxprocs=%d", idx, nu, nl, runtime.GOMAXPROCS(0))
+
+	var wg sync.WaitGroup
+	for _, u := range users {
+		wg.Add(1)
+		go func(u *freeUser) {
+			defer wg.Done()
+			ctx, cancel := context.WithCancel(context.Background())
+			defer cancel()
+			if u.cancelAt >= 0 {
+				go func() {
+					for i := 0; i < u.cancelAt; i++ {
+						y.maybe()
+						runtime.Gosched()
+					}
+					u.cancelled.Store(true)
+					cancel()
+				}()
+			}
+			for i := 0; i < u.id%5; i++ {
+				y.maybe()
+			}
+			descs := make([]claircore.LayerDescription, len(u.layers))
+			for i, k := range u.layers {
+				descs[i] = srv.desc(k, false)
+			}
+			p := arena.Realizer(ctx).(*libindex.FetchProxy)
+			var ls []claircore.Layer
+			out := hx.Guard(func() string { ls, u.err = p.RealizeDescriptions(ctx, descs); return "" })
+			if out == "panic" {
+				u.err = fmt.Errorf("panic")
+				r.Fail("", label+" RealizeDescriptions-panicked user="+strconv.Itoa(u.id))
+				return
+			}
+			if u.err != nil {
+				return
+			}
+			u.a = clock.Add(1)
+			for round := 0; round < 2; round++ {
+				for i, k := range u.layers {
+					r.Case(fmt.Sprintf("free read user=%d layer=%d", u.id, k), true)
+					if msg := readBack(&ls[i], layers[k]); msg != "" {
+						r.Fail("", fmt.Sprintf("%s user=%d cannot-read-held-layer=%d round=%d: %s", label, u.id, k, round, msg))
+					}
+				}
+				y.maybe()
+				y.maybe()
+			}
+			u.b = clock.Add(1)
+			var cerr error
+			if hx.Guard(func() string { cerr = p.Close(); return "" }) == "panic" || cerr != nil {
+				r.Fail("", fmt.Sprintf("%s user=%d Close-failed err=%v", label, u.id, cerr))
+			}
+		}(u)
+	}
+	done := make(chan struct{})
+	go func() { wg.Wait(); close(done) }()
+	select {
+	case <-done:
+	case <-time.After(60 * time.Second):
+		r.Fail("", label+" users-stuck (deadlock or lost wake-up)")
+		return
+	}
+
+	// ---- the statement, checked on what happened
+	okUsers := 0
+	for _, u := range users {
+		r.Count(fmt.Sprintf("free:user-layers=%d", len(u.layers)))
+		if u.err == nil {
+			okUsers++
+			r.Count("free:user=held-and-closed")
+			// no request for a digest while this user held it
+			rt.mu.Lock()
+			for _, k := range u.layers {
+				for _, s := range rt.reqs[k] {
+					if s > u.a && s < u.b {
+						r.Fail("", fmt.Sprintf("%s download-while-held layer=%d holder=user%d held=(%d,%d) request-at=%d", label, k, u.id, u.a, u.b, s))
+					}
+				}
+			}
+			rt.mu.Unlock()
+			continue
+		}
+		why := ""
+		for _, k := range u.layers {
+			if w, isBad := bad[k]; isBad {
+				why = w
+			}
+		}
+		switch {
+		case u.cancelled.Load():
+			r.Count("free:user=failed(cancelled)")
+		case why != "":
+			r.Count("free:user=failed(" + why + ")")
+		case anyCancel || len(bad) > 0:
+			// the flight it joined ran under the context of a leader that was cancelled, by
+			// its owner or by its errgroup after another layer of that user had failed (the
+			// error it gets is the cause of that cancellation, e.g. another layer's 500)
+			r.Count("free:user=failed(flight-of-a-cancelled-leader)")
+		default:
+			r.Fail("", fmt.Sprintf("%s healthy-user%d-failed layers=%v err=%v", label, u.id, u.layers, u.err))
+		}
+	}
+	total, wanted := 0, 0
+	rt.mu.Lock()
+	for _, ss := range rt.reqs {
+		total += len(ss)
+	}
+	rt.mu.Unlock()
+	for _, u := range users {
+		wanted += len(u.layers)
+	}
+	r.Count("free:runs")
+	if clean {
+		r.Count("free:runs-clean(no failing layer, no cancellation)")
+	}
+	if total < wanted {
+		r.Count("free:runs-with-shared-downloads")
+	}
+	r.Count(fmt.Sprintf("free:gomaxprocs=%d", runtime.GOMAXPROCS(0)))
+
+	// ---- after all Close calls. A flight outlives waiters that left through ctx.Done:
+	// the quiescent state is reached when the last flight has returned.
+	for deadline := time.Now().Add(10 * time.Second); flights.Load() != 0; {
+		if time.Now().After(deadline) {
+			r.Fail("", label+" a-flight-is-still-running-10s-after-every-user-returned")
+			break
+		}
+		time.Sleep(50 * time.Microsecond)
+	}
+	fdsBeforeGC := arenaFDs(root)
+	kindsBeforeGC := arenaFDKinds(root)
+	runFinalizers()
+	keys := arena.ArenaKeysForVerif()
+	sort.Strings(keys)
+	orphans := 0
+	for _, key := range keys {
+		c, open := libindex.RcStateForVerif(arena.ArenaEntryForVerif(key))
+		if c == 0 && open && (anyCancel || len(bad) > 0) {
+			// a waiter's context was cancelled (by its user, or by its errgroup after a
+			// sibling layer failed) between the end of the transfer and the hand-over
+			orphans++
+			r.Fail("orphan-after-cancel", fmt.Sprintf("%s arena-keeps %s count=0 file-open after every user is done (user cancellations=%v failing layers=%d)", label, key, anyCancel, len(bad)))
+			continue
+		}
+		r.Fail("", fmt.Sprintf("%s arena-not-empty-after-all-closed %s count=%d open=%v", label, key, c, open))
+	}
+	if n := arenaFDs(root); n != orphans {
+		r.Fail("", fmt.Sprintf("%s open-descriptors-into-arena-after-all-closed n=%d expected=%d", label, n, orphans))
+	} else if fdsBeforeGC != orphans {
+		r.Fail("", fmt.Sprintf("%s descriptors-into-arena-released-only-by-the-garbage-collector before-gc=%d(%s) after-gc=%d", label, fdsBeforeGC, kindsBeforeGC, n))
+	}
+	if n := dirEntries(root); n != 0 {
+		r.Fail("", fmt.Sprintf("%s files-left-in-arena-dir n=%d", label, n))
+	}
+	client.CloseIdleConnections()
+	srv.close()
+}
+
+func freeRuns(r *hx.Run, cfg hx.Config, rnd *hx.Rand) {
+	n := cfg.N(60, 1500)
+	base := runtime.NumGoroutine()
+	for i := 0; i < n && !r.Stop(); i++ {
+		procs := 1 + rnd.Intn(16)
+		old := runtime.GOMAXPROCS(procs)
+		maxUsers := 12
+		if i%6 == 5 {
+			maxUsers = 64
+		}
+		freeRun(r, rnd, i, maxUsers)
+		runtime.GOMAXPROCS(old)
+		if i%10 == 9 {
+			if g := settleGoroutines(base, 3); g > base+3 {
+				r.Fail("", fmt.Sprintf("goroutines-leaked-by-free-runs before=%d after=%d run=%d", base, g, i))
+				base = g
+			}
+		}
+	}
+	r.Notes["free_runs"] = n
+}
